@@ -106,24 +106,62 @@ fn absorb(rx: &mut RxNode, r: RxRes) {
 /// implement the crate's traits by delegation and cannot forward trait methods added later, so the same packets are
 /// also fed to this receiver and its answers must equal the wrapped receiver's.
 struct Bare {
-    dec: Decapsulator<SimpleGseMemory, DefaultCrc, TableManager>,
+    dec: BareDec,
     app: Vec<Box<[u8]>>,
+}
+
+/// the shadow receiver runs on the crate's own extension managers whenever they describe what the run's receiver
+/// knows: nothing (SimpleMandatoryExtensionHeaderManager) or the two signalling ids 0x81 / 0x82 without data
+/// (SignalisationMandatoryExtensionHeaderManager); otherwise on the harness's table manager
+enum BareDec {
+    Table(Decapsulator<SimpleGseMemory, DefaultCrc, TableManager>),
+    Simple(Decapsulator<SimpleGseMemory, DefaultCrc, dvb_gse_rust::header_extension::SimpleMandatoryExtensionHeaderManager>),
+    Sig(Decapsulator<SimpleGseMemory, DefaultCrc, dvb_gse_rust::header_extension::SignalisationMandatoryExtensionHeaderManager>),
+}
+
+macro_rules! with_dec {
+    ($s:expr, $d:ident => $e:expr) => {
+        match &mut $s {
+            BareDec::Table($d) => $e,
+            BareDec::Simple($d) => $e,
+            BareDec::Sig($d) => $e,
+        }
+    };
 }
 
 impl Bare {
     fn new(slots: usize, minsize: usize, table: ExtTable) -> Bare {
-        Bare { dec: Decapsulator::new(SimpleGseMemory::new(slots.max(1), minsize, 0, 0), DefaultCrc {}, TableManager { table }), app: vec![] }
+        let mem = SimpleGseMemory::new(slots.max(1), minsize, 0, 0);
+        let mut ids: Vec<(u16, MExt)> = table.entries.clone();
+        ids.sort_by_key(|e| e.0);
+        let dec = if ids.is_empty() {
+            BareDec::Simple(Decapsulator::new(mem, DefaultCrc {}, dvb_gse_rust::header_extension::SimpleMandatoryExtensionHeaderManager {}))
+        } else if ids == vec![(0x81, MExt::Final(0)), (0x82, MExt::Final(0))] {
+            BareDec::Sig(Decapsulator::new(mem, DefaultCrc {}, dvb_gse_rust::header_extension::SignalisationMandatoryExtensionHeaderManager {}))
+        } else {
+            BareDec::Table(Decapsulator::new(mem, DefaultCrc {}, TableManager { table }))
+        };
+        Bare { dec, app: vec![] }
+    }
+    fn manager_name(&self) -> &'static str {
+        match self.dec {
+            BareDec::Table(_) => "probe.shadow_receiver.table_manager",
+            BareDec::Simple(_) => "probe.shadow_receiver.bundled_simple_manager",
+            BareDec::Sig(_) => "probe.shadow_receiver.bundled_signalisation_manager",
+        }
+    }
+    fn reset_last_label(&mut self) {
+        with_dec!(self.dec, d => d.reset_last_label())
     }
     fn provision(&mut self, size: usize) {
-        match self.dec.provision_storage(vec![0u8; size.max(1)].into_boxed_slice()) {
+        match with_dec!(self.dec, d => d.provision_storage(vec![0u8; size.max(1)].into_boxed_slice())) {
             Ok(()) => {}
             Err(DecapMemoryError::StorageOverflow(b)) | Err(DecapMemoryError::BufferTooSmall(b)) => self.app.push(b),
             Err(_) => {}
         }
     }
     fn decap(&mut self, bytes: &[u8]) -> RxRes {
-        let d = &mut self.dec;
-        match crate::core::guarded(|| d.decap(bytes)) {
+        match with_dec!(self.dec, d => crate::core::guarded(|| d.decap(bytes))) {
             Ok(Ok((s, n))) => RxRes::Ok(s, n),
             Ok(Err((e, n))) => RxRes::Err(e, n),
             Err((m, l)) => RxRes::Panic(m, l),
@@ -138,7 +176,7 @@ impl Bare {
         let n = self.app.len();
         for _ in 0..n {
             if let Some(b) = self.app.pop() {
-                match self.dec.provision_storage(b) {
+                match with_dec!(self.dec, d => d.provision_storage(b)) {
                     Ok(()) => {}
                     Err(DecapMemoryError::StorageOverflow(b)) | Err(DecapMemoryError::BufferTooSmall(b)) => {
                         self.app.push(b);
@@ -241,6 +279,7 @@ impl Scenario for Flow {
             "C02" | "C11" | "C12" => &["substituted_first_fragment", "crc_only_end_packet", "zero_payload_first_fragment", "gse_len_4095", "total_len_65535"],
             "C04" | "C15" => &["substituted_reuse", "substituted_first_fragment"],
             "C07" => &["aliasing_stray_on_open_slot", "restart_same_fid", "first_fragment_claims_aliased_slot"],
+            "C13" => &["ext.chain_of_1", "ext.chain_of_2", "ext.chain_of_3", "ext.chain_of_4_or_more", "ext.final_mandatory_with_data", "ext.final_mandatory_without_data", "ext.non_final_mandatory_with_data", "ext.non_final_mandatory_without_data", "ext.optional_hlen_1", "ext.optional_hlen_2", "ext.optional_hlen_3", "ext.optional_hlen_4", "ext.optional_hlen_5", "ext.fragmented", "ext.first_fragment_ends_with_the_chain", "ext.explicit_re_use_label", "ext.substituted_re_use_label", "ext.total_length_near_65535", "shadow_receiver.bundled_simple_manager", "shadow_receiver.bundled_signalisation_manager", "packet_followed_by_further_bytes"],
             "C10" => &["rejected_packet_walked", "padding_walked", "substituted_reuse", "rejected_then_walked_on.bad_crc", "rejected_then_walked_on.unknown_fragment_id", "rejected_then_walked_on.no_storage", "rejected_then_walked_on.storage_too_small", "rejected_then_walked_on.unknown_mandatory_extension", "rejected_then_walked_on.unresolvable_re_use_label"],
             "C19" => &["rejected_packet_walked", "padding_walked", "substituted_reuse", "peek.shortest_intermediate_packet_alone", "peek.shortest_end_packet_alone", "packet_followed_by_further_bytes"],
             _ => &[],
@@ -279,6 +318,9 @@ impl Scenario for Flow {
         let mut walker = if mode == 1 { Some(RxNode::new(slots, minsize, table.clone(), false)) } else { None };
         let trail = mode == 0 && p.cfg.get_u("trail") == 1;
         let mut bare = if mode == 0 && p.cfg.get_u("shadow") == 1 { Some(Bare::new(slots, minsize, table.clone())) } else { None };
+        if let Some(b) = bare.as_ref() {
+            ex.st.inc(b.manager_name());
+        }
         let mut accepted_bufs = 0usize;
         for _ in 0..nbuf {
             if let Ok(true) = rx.provision(maxpdu) {
@@ -598,7 +640,7 @@ impl Scenario for Flow {
                     led.reset();
                     rx.reset();
                     if let Some(b) = bare.as_mut() {
-                        b.dec.reset_last_label();
+                        b.reset_last_label();
                     }
                     ex.st.inc("label_resync_after_rejection");
                 }
@@ -761,7 +803,7 @@ impl Scenario for Flow {
                             led.reset();
                             rx.reset();
                             if let Some(b) = bare.as_mut() {
-                                b.dec.reset_last_label();
+                                b.reset_last_label();
                             }
                             continue;
                         }
@@ -794,6 +836,43 @@ impl Scenario for Flow {
                     let n = res.n().unwrap();
                     // flight bookkeeping
                     stream_no += 1;
+                    // reach of the extension domain (C13): what kinds of chains were accepted by encap_ext
+                    if !exts.is_empty() {
+                        ex.st.inc(match exts.len() {
+                            1 => "probe.ext.chain_of_1",
+                            2 => "probe.ext.chain_of_2",
+                            3 => "probe.ext.chain_of_3",
+                            _ => "probe.ext.chain_of_4_or_more",
+                        });
+                        for (i, (id, d)) in exts.iter().enumerate() {
+                            ex.st.inc(match id >> 8 {
+                                0 if i + 1 == exts.len() && *id == ptype && !d.is_empty() => "probe.ext.final_mandatory_with_data",
+                                0 if i + 1 == exts.len() && *id == ptype => "probe.ext.final_mandatory_without_data",
+                                0 if !d.is_empty() => "probe.ext.non_final_mandatory_with_data",
+                                0 => "probe.ext.non_final_mandatory_without_data",
+                                1 => "probe.ext.optional_hlen_1",
+                                2 => "probe.ext.optional_hlen_2",
+                                3 => "probe.ext.optional_hlen_3",
+                                4 => "probe.ext.optional_hlen_4",
+                                _ => "probe.ext.optional_hlen_5",
+                            });
+                        }
+                        if parsed.kind == Kind::First {
+                            ex.st.inc("probe.ext.fragmented");
+                            if parsed.payload.is_empty() {
+                                ex.st.inc("probe.ext.first_fragment_ends_with_the_chain");
+                            }
+                        }
+                        if lab == Lab::ReUse {
+                            ex.st.inc("probe.ext.explicit_re_use_label");
+                        }
+                        if parsed.lt == LT_REUSE && lab.is_addr() {
+                            ex.st.inc("probe.ext.substituted_re_use_label");
+                        }
+                        if len + 2 + lab.len() >= 65_530 {
+                            ex.st.inc("probe.ext.total_length_near_65535");
+                        }
+                    }
                     // receiver-side preconditions
                     let mut tainted = false;
                     let mut must_reject = false;
@@ -855,7 +934,9 @@ impl Scenario for Flow {
                         pdu,
                         ptype,
                         intended,
-                        exts: exts.clone(),
+                        // a protocol type below 0x0100 passed to plain encap is a final mandatory extension without
+                        // data standing for the protocol type: a receiver that knows it reports it as such
+                        exts: if exts.is_empty() && ptype < 0x100 { vec![(ptype, vec![])] } else { exts.clone() },
                         fid,
                         ctx: ctx.unwrap_or(ContextFrag::new(fid, 0, 0)),
                         tainted,
@@ -1052,7 +1133,7 @@ impl Scenario for Flow {
                         led.reset();
                         rx.reset();
                         if let Some(b) = bare.as_mut() {
-                            b.dec.reset_last_label();
+                            b.reset_last_label();
                         }
                     }
                     ex.st.inc("fault.stray");
@@ -1199,7 +1280,7 @@ impl Scenario for Flow {
                     led.reset();
                     rx.reset();
                     if let Some(b) = bare.as_mut() {
-                        b.dec.reset_last_label();
+                        b.reset_last_label();
                     }
                 }
                 "enable" => {
@@ -2069,10 +2150,37 @@ pub mod gen {
         let n = rng.usize_in(1, 6);
         let mut maxlen = 16;
         let mut fid = rng.below(256) as u8;
+        // one run in twelve is a signalling run: the only mandatory ids are 0x81 / 0x82, final and without data, as the
+        // crate's SignalisationMandatoryExtensionHeaderManager knows them (the shadow receiver then runs on it);
+        // plain encap with such a protocol type is the same packet without a chain
+        let signalling = rng.chance(1, 12);
+        if signalling {
+            table.entries.push((0x81, MExt::Final(0)));
+            table.entries.push((0x82, MExt::Final(0)));
+        }
         for _ in 0..n {
-            let (exts, pt) = ext_chain(rng, &mut table);
-            let lab = label(rng, false);
-            let len = if rng.chance(1, 100) { rng.usize_in(5000, 65_000) } else { *rng.pick(&[0usize, 1, 2, 7, 30, 100, 600, 4000, 4090]) + rng.usize_in(0, 5) };
+            let (exts, pt) = if signalling {
+                let id = *rng.pick(&[0x81u16, 0x82]);
+                let mut e: Vec<(u16, Vec<u8>)> = (0..rng.usize_in(0, 2)).map(|_| opt_ext(rng)).collect();
+                if e.is_empty() && rng.chance(1, 2) {
+                    (vec![], id) // plain encap
+                } else {
+                    e.push((id, vec![]));
+                    (e, id)
+                }
+            } else {
+                ext_chain(rng, &mut table)
+            };
+            // any label, the explicit re-use marker included (resolvable only right after a labelled packet)
+            let lab = if rng.chance(1, 10) { Lab::ReUse } else { label(rng, false) };
+            let len = if rng.chance(1, 100) {
+                rng.usize_in(5000, 65_000)
+            } else if rng.chance(1, 60) {
+                // around the largest PDU the 16-bit total length allows (the extensions are not counted in it)
+                (65_533 - lab.len()).saturating_sub(rng.usize_in(0, 3)) + rng.usize_in(0, 2)
+            } else {
+                *rng.pick(&[0usize, 1, 2, 7, 30, 100, 600, 4000, 4090]) + rng.usize_in(0, 5)
+            };
             maxlen = maxlen.max(len);
             let extlen: usize = exts.iter().map(|e| e.1.len() + 2).sum();
             let hdr = 2 + 3 + 2 + lab.len() + extlen;
@@ -2107,7 +2215,7 @@ pub mod gen {
         }
         // receiver: knows all / some / none
         let mut rxt = table.clone();
-        match rng.below(4) {
+        match if signalling { 3 } else { rng.below(4) } {
             0 => rxt.entries.clear(),
             1 => {
                 if !rxt.entries.is_empty() {
